@@ -290,6 +290,14 @@ class Sim:
 
     def run(self, op, *args, **kw):
         self.remember()
+        if getattr(self, 'fake_now', None) is not None:
+            # the commands of this history run at increasing, far apart times (frozen clock through the shim):
+            # per-stripe scrub/sync times then differ from command to command
+            env = dict(kw.get('env') or {})
+            env.setdefault('LD_PRELOAD', self.shim)
+            env.setdefault('VERIF_NOW', str(self.fake_now))
+            kw['env'] = env
+            self.fake_now += 3600 * (1 + self.rng.below(72))
         res = self.arr.cmd(op, *args, **kw)
         self.remember()
         self.log('snapraid %s %s -> rc=%d' % (op, ' '.join(args), res.rc))
